@@ -321,7 +321,7 @@ def model_exe():
 # every script a check feeds to the ASan/UBSan harness is also fed to the MemorySanitizer build (without the calls that reach the
 # uninstrumented libyaml); a read of memory the library never wrote is reported by the check at its end.  Enabled by check.py.
 SHADOW = {'exe': None, 'reports': [], 'runs': 0, 'calls': 0}
-YAML_LINE = re.compile(r'^(cal (savestr|loadstr|save|load|resave) |pt .*\b(export|import|yamltree)\b)')
+YAML_LINE = re.compile(r'^(cal (savestr|loadstr|save|load|resave) |pt .*\b(export|import|importf|yamltree)\b)')
 MSAN_ENV = {'MSAN_OPTIONS': 'exitcode=98:halt_on_error=1:print_stats=0:allocator_may_return_null=1:check_printf=1'}
 
 
